@@ -167,6 +167,10 @@ INVARIANT NormalizeModel
 
     def keyfn(evid, clauses):
         kind = evid.split(":")[0]
+        if [c.split(".", 1)[1] for c in clauses] == ["opline_split"]:
+            # the only difference: an instruction whose ORIGINAL line changes between its EXTENDED_ARG prefix and its
+            # opcode unit reports another line at the opcode unit (same root cause as the known C01 finding)
+            return f"{PID}/opline_split/line-entry-inside-multi-unit-instruction"
         return f"{PID}/{'+'.join(sorted(set(c.split('.', 1)[1] for c in clauses)))}/{kind}/ver{df.ver_of(evid) if kind in ('c', 'g') else evid.split(':')[-1].split('.')[0] if kind in ('p', 'fixed') else df.ver_of(evid)}"
 
     def corrupt(e):
